@@ -395,3 +395,275 @@ func loopCarried(v ssa.Value, seen map[ssa.Value]bool) bool {
 	}
 	return false
 }
+
+// ruleArrayBounds: every access of a fixed-size array (the 31 slots of a bucket, the header fields) at a computed index
+// is reached only where the index is known to be below the array's length. An off-by-one in such a loop bound does not
+// show while buckets are not full; with a full bucket and no matching slot it is an index-out-of-range panic in the
+// middle of a lookup, a split or a compaction.
+func ruleArrayBounds(r *Run, p *Program, rule string) {
+	n := 0
+	for _, f := range p.ModuleFuncs("") {
+		if f.Pkg != p.MainS {
+			continue
+		}
+		type site struct {
+			in  ssa.Instruction
+			idx ssa.Value
+			n   int64
+		}
+		var sites []site
+		instrsOf(f, func(in ssa.Instruction) {
+			var x, idx ssa.Value
+			switch a := in.(type) {
+			case *ssa.IndexAddr:
+				x, idx = a.X, a.Index
+			case *ssa.Index:
+				x, idx = a.X, a.Index
+			default:
+				return
+			}
+			at, ok := derefType(x.Type()).Underlying().(*types.Array)
+			if !ok {
+				return
+			}
+			if _, isc := constInt(strip(idx)); isc {
+				return
+			}
+			if at.Len() > 64 {
+				return // the segment table (indexed by 15-bit ids validated where they are parsed) is not a loop-bounded array
+			}
+			sites = append(sites, site{in, idx, at.Len()})
+		})
+		for _, s := range sites {
+			n++
+			r.fn(funcKey(f))
+			idx := strip(s.idx)
+			if cv, ok := idx.(*ssa.Convert); ok {
+				idx = strip(cv.X)
+			}
+			// index = base + k: the base must be below N - k
+			var plus int64
+			if bo, ok := idx.(*ssa.BinOp); ok && bo.Op == token.ADD {
+				if k, isc := constInt(strip(bo.Y)); isc && k >= 0 {
+					if _, isPhi := strip(bo.X).(*ssa.Phi); isPhi {
+						if !hasUseAsBound(bo) {
+							idx, plus = strip(bo.X), k
+						}
+					}
+				}
+			}
+			isIdx := func(v ssa.Value) bool {
+				v = strip(v)
+				if cv, ok := v.(*ssa.Convert); ok {
+					v = strip(cv.X)
+				}
+				return v == idx || sameLoad(v, idx)
+			}
+			lenOK := func(v ssa.Value) bool { k, ok := constInt(strip(v)); return ok && k <= s.n-plus }
+			lenM1 := func(v ssa.Value) bool { k, ok := constInt(strip(v)); return ok && k <= s.n-1-plus }
+			okv := controlledBy(f, s.in, func(c *Cond) bool {
+				// N > idx, or N-1 >= idx
+				return impliesCmp(c, lenOK, isIdx, true) || impliesCmp(c, lenM1, isIdx, false)
+			})
+			if !okv {
+				okv = boundedCounter(f, s.in, idx, s.n)
+			}
+			if !okv {
+				okv = afterCountingLoop(p, f, s.in, idx, s.n)
+			}
+			r.check(okv, rule, funcKey(f)+":index<"+fmt.Sprint(s.n), p.Pos(s.in.Pos()),
+				"the array is indexed only where the index is known to be below its length",
+				fmt.Sprintf("an array of %d elements is indexed by a value (%s) that is not known to be below %d at this point: with a full bucket (all %d slots in use) the access is an index-out-of-range panic", s.n, valString(s.idx), s.n, s.n))
+		}
+	}
+	r.universe(rule, n, 4)
+}
+
+// sameLoad: both values are loads of the same field of the same object (x.f read twice).
+func sameLoad(a, b ssa.Value) bool {
+	la, ok1 := a.(*ssa.UnOp)
+	lb, ok2 := b.(*ssa.UnOp)
+	if !ok1 || !ok2 || la.Op != token.MUL || lb.Op != token.MUL {
+		return false
+	}
+	fa, ok1 := la.X.(*ssa.FieldAddr)
+	fb, ok2 := lb.X.(*ssa.FieldAddr)
+	return ok1 && ok2 && fa.Field == fb.Field && fa.X == fb.X
+}
+
+// boundedCounter: the index is a field used as a fill counter - the access is reached only after the test
+// "counter == N" took its false edge or reset the counter to 0, and the counter only grows by one per access.
+func boundedCounter(f *ssa.Function, at ssa.Instruction, idx ssa.Value, n int64) bool {
+	ld, ok := idx.(*ssa.UnOp)
+	if !ok || ld.Op != token.MUL {
+		return false
+	}
+	fa, ok := ld.X.(*ssa.FieldAddr)
+	if !ok {
+		return false
+	}
+	// a dominating comparison "field == N" in this function, whose true edge stores 0 into the field before joining
+	found := false
+	for _, b := range f.Blocks {
+		c := edgeCond(b, 0)
+		if c == nil || c.Op != token.EQL || c.X == nil || c.Y == nil {
+			continue
+		}
+		var fld, k ssa.Value = c.X, c.Y
+		if _, isc := strip(fld).(*ssa.Const); isc {
+			fld, k = c.Y, c.X
+		}
+		kv, isc := constInt(strip(k))
+		l2, ok := strip(fld).(*ssa.UnOp)
+		if !isc || kv != n || !ok {
+			continue
+		}
+		fa2, ok := l2.X.(*ssa.FieldAddr)
+		if !ok || fa2.Field != fa.Field || fa2.X != fa.X {
+			continue
+		}
+		if !b.Dominates(at.Block()) {
+			continue
+		}
+		// on the "== N" side the counter is reset to zero before the access
+		reset := false
+		instrsOf(f, func(in ssa.Instruction) {
+			if st, ok := in.(*ssa.Store); ok {
+				if fa3, ok := st.Addr.(*ssa.FieldAddr); ok && fa3.Field == fa.Field && fa3.X == fa.X {
+					if kv, isc := constInt(strip(st.Val)); isc && kv == 0 {
+						reset = true
+					}
+				}
+			}
+		})
+		if reset {
+			found = true
+		}
+	}
+	return found
+}
+
+// hasUseAsBound: the sum is itself compared in a loop test (a rotated range loop indexes by "phi + 1" and tests that very
+// sum against the length: the sum is then the index to bound, not its base).
+func hasUseAsBound(bo *ssa.BinOp) bool {
+	if bo.Referrers() == nil {
+		return false
+	}
+	for _, u := range *bo.Referrers() {
+		if cmp, ok := u.(*ssa.BinOp); ok {
+			switch cmp.Op {
+			case token.LSS, token.LEQ, token.GTR, token.GEQ:
+				return true
+			}
+		}
+	}
+	return false
+}
+
+// afterCountingLoop: the index is the counter of a loop "for ; i < C; i++" read after the loop (C <= N-1), and the
+// counter starts below N (a constant, or a parameter that every static call site passes from below N): at the exit it
+// is max(start, C) < N.
+func afterCountingLoop(p *Program, f *ssa.Function, at ssa.Instruction, idx ssa.Value, n int64) bool {
+	ph, ok := idx.(*ssa.Phi)
+	if !ok || !inCycle(ph.Block()) || at.Block() == ph.Block() || sameCycle(at.Block(), ph.Block()) {
+		return false
+	}
+	h := ph.Block()
+	var start ssa.Value
+	for i, pred := range h.Preds {
+		if i >= len(ph.Edges) {
+			return false
+		}
+		e := strip(ph.Edges[i])
+		if h.Dominates(pred) {
+			bo, ok := e.(*ssa.BinOp)
+			if !ok || bo.Op != token.ADD || strip(bo.X) != ssa.Value(ph) {
+				return false
+			}
+			if k, isc := constInt(strip(bo.Y)); !isc || k != 1 {
+				return false
+			}
+		} else {
+			if start != nil {
+				return false
+			}
+			start = e
+		}
+	}
+	if start == nil {
+		return false
+	}
+	// the loop is left only where !(ph < C), C <= N-1
+	isPh := func(v ssa.Value) bool { return strip(v) == ssa.Value(ph) }
+	okBound := false
+	for _, b := range f.Blocks {
+		if b != h && !sameCycle(b, h) {
+			continue
+		}
+		for k, succ := range b.Succs {
+			if succ == h || sameCycle(succ, h) {
+				continue
+			}
+			c := edgeCond(b, k)
+			if c == nil {
+				return false
+			}
+			// exit edge: ph >= C with C <= N-1
+			if !impliesCmp(c, isPh, func(v ssa.Value) bool { kk, ok := constInt(strip(v)); return ok && kk <= n-1 }, false) {
+				return false
+			}
+			// and not an exit that could be taken with ph beyond C by more than the start allows: fine, ph only counts up from start
+			okBound = true
+		}
+	}
+	if !okBound {
+		return false
+	}
+	if k, isc := constInt(start); isc {
+		return k >= 0 && k < n
+	}
+	par, isPar := start.(*ssa.Parameter)
+	if !isPar {
+		return false
+	}
+	return argsBelow(p, f, par, n, 0)
+}
+
+// argsBelow: every static call site of f passes, for parameter par, a value known to be below n there.
+func argsBelow(p *Program, f *ssa.Function, par *ssa.Parameter, n int64, d int) bool {
+	pi := paramIndex(par)
+	callers := staticCallersOf(p, f)
+	if pi < 0 || len(callers) == 0 || d > 2 {
+		return false
+	}
+	for _, caller := range callers {
+		var sites []*ssa.Call
+		instrsOf(caller, func(in ssa.Instruction) {
+			if c, ok := in.(*ssa.Call); ok && c.Call.StaticCallee() == f {
+				sites = append(sites, c)
+			}
+		})
+		if len(sites) == 0 {
+			return false
+		}
+		for _, s := range sites {
+			if pi >= len(s.Call.Args) {
+				return false
+			}
+			a := strip(s.Call.Args[pi])
+			if k, isc := constInt(a); isc {
+				if k < 0 || k >= n {
+					return false
+				}
+				continue
+			}
+			isA := func(v ssa.Value) bool { return strip(v) == a }
+			if !controlledBy(caller, s, func(c *Cond) bool {
+				return impliesCmp(c, func(v ssa.Value) bool { kk, ok := constInt(strip(v)); return ok && kk <= n }, isA, true)
+			}) {
+				return false
+			}
+		}
+	}
+	return true
+}
